@@ -14,6 +14,11 @@ import (
 var c05CLIDocs = []string{`1`, `1.05`, `[1,2]`, `[2,1]`, `[1,1,2]`, `{"a":[1,2]}`, `{"a":[2,1]}`, `[{"id":1,"v":1}]`,
 	`[{"id":1,"v":2}]`, `{"a":1}`, `{"a":1.05}`, ``, `null`, `[[1,2],[3]]`, `[[2,1],[3]]`}
 
+// documents with bytes that are not UTF-8 (written with the byte marker of cli.ExpandBytes), their nearest valid
+// neighbours, and strings that differ only in a tab / spaces, line ends or Unicode composition
+var c05CLIBytes = []string{"{\"name\":\"caf\u27e6E9\u27e7\"}", `{"name":"caf"}`, "{\"name\":\"caf\ufffd\"}", "{\"k\u27e6FF\u27e7\":1}", `{"k":1}`, `{"name":"a\tb"}`, `{"name":"a  b"}`,
+	`{"name":"a\r\nb"}`, `{"name":"a\nb"}`, "{\"name\":\"\u00e9\"}", "{\"name\":\"e\u0301\"}"}
+
 var c05CLIFlags = []string{"", "-set", "-mset", "-setkeys id", "-precision 0.1"}
 
 func c05CLICases(tier string) []engine.Case {
@@ -23,6 +28,13 @@ func c05CLICases(tier string) []engine.Case {
 		docs = docs[:12]
 	}
 	for _, bin := range []string{"jd-v2", "jd-top"} {
+		for _, fl := range []string{"", "-set", "-f merge", "-f patch"} {
+			for _, a := range c05CLIBytes {
+				for _, b := range c05CLIBytes {
+					out = append(out, engine.Case{Kind: "c05cli:" + bin, Leg: "cli-bytes/" + bin, A: a, B: b, X: fl})
+				}
+			}
+		}
 		for _, fl := range c05CLIFlags {
 			for _, f := range []string{"jd", "patch", "merge"} {
 				for _, a := range docs {
@@ -71,7 +83,7 @@ func flagsToOptName(flags string) string {
 func runC05CLI(c *engine.Case) engine.Result {
 	bin := strings.TrimPrefix(c.Kind, "c05cli:")
 	o := impl.Options(flagsToOptName(c.X))
-	aV, bV := ref.MustParse(c.A), ref.MustParse(c.B)
+	aV, bV := ref.MustParse(cli.ExpandBytes(c.A)), ref.MustParse(cli.ExpandBytes(c.B))
 	var want bool
 	if o.Eps > 0 {
 		if ref.NearBoundary(aV, bV, o.Eps) {
